@@ -128,6 +128,17 @@ def _append(p, text):
         f.write(text)
 
 
+def _drop_submodule(s):
+    # the build script stops using the submodule and its script is deleted (a script that was a regeneration input)
+    p = s + '/build.bfg'
+    with open(p) as f:
+        text = f.read()
+    with open(p, 'w') as f:
+        f.write(text.replace("submodule('sub')\n", ''))
+    if _os.path.exists(s + '/sub/build.bfg'):
+        _os.remove(s + '/sub/build.bfg')
+
+
 EDITS = {
     'none': lambda s: None,
     'edit-build': lambda s: _append(s + '/build.bfg', "copy_file('extra.txt')\n"),
@@ -142,6 +153,7 @@ EDITS = {
     'add-dir': lambda s: _write(s + '/d2/new/w.dat', ''),
     'rename-dir': lambda s: _os.path.isdir(s + '/d2/deep') and _os.rename(s + '/d2/deep', s + '/d2/deeper'),
     'add-empty-dir': lambda s: _os.makedirs(s + '/d2/empty', exist_ok=True),
+    'drop-submodule': lambda s: _drop_submodule(s),
     'fill-empty-dir': lambda s: _write(s + '/d2/empty/w.dat', ''),
 }
 BUILD_FILES = ('Makefile', '.bfg_find_deps', '.bfg_find_cache', 'compile_commands.json')
@@ -193,7 +205,7 @@ class RegenHistory(Bounded):
         try:
             src, b = top + '/src', top + '/b'
             _write(src + '/build.bfg', "project('p')\na = find_files('d1/*.txt', extra='*.md')\nb = find_files('d2/**/*.dat')\n"
-                                      "submodule('sub')\nfor f in a + b:\n    copy_file(f)\ncommand('say', cmd=['echo', argv.subname])\n")
+                                      "submodule('sub')\nfor f in a + b:\n    copy_file(f)\ncommand('say', cmd=['echo', argv.subname])\npkg_config('p', version='1.0')\n")
             _write(src + '/options.bfg', "argument('name', default='x')\nsubmodule('sub')\n")
             _write(src + '/sub/options.bfg', "argument('subname', default='y')\n")
             _write(src + '/sub/build.bfg', "copy_file('s.txt')\n")
